@@ -11,6 +11,8 @@ from ..srcmodel import walk_local, norm, dotted, guards
 from . import common, families as F
 from .c08 import _inc
 
+from . import forward
+
 META = {
     'explanation': (
         "Whole-string application of every validating regex in TRS "
@@ -20,7 +22,7 @@ META = {
         "def-use in construct_trs (int, lower, rjust(2,'0'), emptiness tested "
         "by membership not truthiness), sibling agreement of the Twp and Rge "
         "blocks, and __eq__/__hash__ on .trs only."),
-    'families': ['RX-ANCHOR', 'RX-LANG', 'RX-DEADALT', 'DEFUSE', 'SIB'],
+    'families': ['RX-ANCHOR', 'RX-LANG', 'RX-DEADALT', 'DEFUSE', 'SIB', 'FORWARD', 'DEADPARAM', 'SIB-DEFAULTS'],
 }
 
 WHOLE = ('fullmatch',)
@@ -139,6 +141,8 @@ def check(ctx):
     ctx.attempt(_construct_defuse, construct)
     ctx.attempt(_siblings, trs_to_dict, construct)
     ctx.attempt(_eq_hash)
+    ctx.attempt(forward.check_all, module_suffixes=('trs.trs', 'tract.tract'))
+    ctx.attempt(common.embedded_case_consistency, modules=('trs.trs',))
 
 
 def _subject_prov(ctx, fi):
